@@ -129,6 +129,7 @@ class Index:
         self.consulted: Set[str] = set()
         self._load(extra_files)
         self._resolve_bases()
+        self._register_enums()
 
     # ---------------------------------------------------------------- loading
     def _iter_files(self) -> Iterator[str]:
@@ -294,6 +295,16 @@ class Index:
                     ci.bases.append(obj)
                 else:
                     ci.unresolved_bases.append(txt)
+
+    def _register_enums(self) -> None:
+        """Enum classes and their members, for exhaustive if-chains (see dataflow.feasible_path)."""
+        from . import dataflow
+
+        for ci in self.classes.values():
+            if any(ast.unparse(b).split(".")[-1] in ("Enum", "IntEnum") for b in ci.base_exprs):
+                members = [t.id for s in ci.node.body if isinstance(s, ast.Assign) for t in s.targets if isinstance(t, ast.Name)]
+                if members:
+                    dataflow.ENUMS[ci.name] = members
 
     # ---------------------------------------------------------------- anchors
     def module(self, name: str) -> ModuleInfo:
